@@ -52,6 +52,30 @@ type c13Obs struct {
 type c13Case struct {
 	Scn c13Scn `json:"scn"`
 	Obs c13Obs `json:"obs"`
+	// Class names a scenario class with a recorded finding, Symptom what deviated (both only serve the
+	// matching of known_findings.json; the verdict is computed inside Coq from the observation)
+	Class   string `json:"class,omitempty"`
+	Symptom string `json:"symptom,omitempty"`
+}
+
+// classify tags the scenarios in which the server ends the session over a socket while data sent by the
+// client is still unread in the server's socket buffer (closing such a socket resets the connection).
+func (c *c13Case) classify() {
+	s, o := c.Scn, c.Obs
+	serverEnds := s.Init == "serverfinish" || s.Init == "serverfail" || s.Init == "serverclose"
+	if (s.Kind == "tcp" || s.Kind == "ws") && serverEnds && s.ToSv > 0 {
+		c.Class = "server-ends-over-socket-with-unread-client-data"
+	}
+	want := "finished"
+	if s.Init == "serverfail" {
+		want = "failed"
+	}
+	serverSideClean := o.SvState == want && o.SvRcvDone == 1 && o.SvStreams == 1 && o.SvConn == 0 && o.Finished == 1 &&
+		o.Gor == 0 && !o.Panic && o.ClRcvDone == 1 && o.ClStreams == 1 && o.ClAfter == 0
+	clientMissedTail := o.ClState == "established" || (o.Delivered >= 0 && o.Delivered < s.ToCl)
+	if serverSideClean && clientMissedTail {
+		c.Symptom = "client-missed-the-end-of-the-stream"
+	}
 }
 
 func b2i(b bool) int {
@@ -458,6 +482,7 @@ func runC13(env *Env) error {
 		return err
 	} else if ok {
 		c := runC13Scn(rc.Scn)
+		c.classify()
 		env.Add(c.coq(), c)
 		return nil
 	}
@@ -512,7 +537,11 @@ func runC13(env *Env) error {
 	wg.Wait()
 	for i := range cases {
 		c := &cases[i]
+		c.classify()
 		env.Add(c.coq(), c)
+		if c.Class != "" {
+			env.Count("class=" + c.Class)
+		}
 		env.Count("transport=" + c.Scn.Kind)
 		env.Count("initiator=" + c.Scn.Init)
 		env.Count(fmt.Sprintf("cap=%d", c.Scn.Cap))
